@@ -374,6 +374,9 @@ func FanUniverse(fs FanSpec) AlphaSpec {
 	}
 	if fs.Path != "" {
 		sp.Probes = append(sp.Probes, fs.Path, fs.Path[:len(fs.Path)-1])
+		if len(fs.Path) > 10 {
+			sp.Probes = append(sp.Probes, fs.Path[:10]) // ends right behind the inline bytes of the path
+		}
 	}
 	if len(fs.Path) > 11 {
 		// keys that agree with the ten inline path bytes and diverge in the part of the path that is
@@ -428,7 +431,7 @@ func AlphaFamilies(tier string) []AlphaSpec {
 	out = append(out, AlphaSpec{
 		Name:   "LONGPATH",
 		Free:   []string{P(12) + "x", P(12) + "y", P(11) + "z", P(5) + "q", P(10) + "m", P(9) + "n", P(12) + "x" + Q(11) + "1", P(12) + "x" + Q(11) + "2"},
-		Probes: []string{P(12), P(8), P(12) + "z", P(11) + "bx", P(12) + "x" + Q(5), P(13), P(12) + "x" + Q(11), P(12) + "x" + Q(11) + "3"},
+		Probes: []string{P(12), P(8), P(12) + "z", P(11) + "bx", P(12) + "x" + Q(5), P(13), P(12) + "x" + Q(11), P(12) + "x" + Q(11) + "3", P(10), P(11)},
 		NVals:  1,
 	})
 	out = append(out, AlphaSpec{
